@@ -4,6 +4,7 @@
 mod c01;
 mod c02;
 mod c03;
+mod c04;
 mod common;
 
 fn main() {
@@ -12,6 +13,7 @@ fn main() {
         "C01" => c01::main(),
         "C02" => c02::main(),
         "C03" => c03::main(),
+        "C04" => c04::main(),
         other => {
             println!("INCONCLUSIVE property={other} reason=vh-exec has no check for this property");
             std::process::exit(2);
